@@ -26,6 +26,12 @@ FIX = {
 FIXED = [
  ("C01", "F1", "replays/C01-F1-add_edge-none.json"), ("C01", "F1", "replays/C01-F1-bulk-none.json"),
  ("C01", "F5a", "replays/C01-F5-idx0-overwrite.json"), ("C01", "F5c", "replays/C01-F5-df-overwrite.json"),
+ ("C02", "F2", "replays/C02-F2-strong-removal.json"), ("C02", "F1", "replays/C02-F1-add_edge-none.json"),
+ ("C03", "F3", "replays/C03-F3-max_order.json"), ("C03", "F4", "replays/C03-F4-empty-simplex.json"),
+ ("C03", "F16", "replays/C03-F16-bulk-raise-skips-faces.json"), ("C03", "F1", "replays/C03-F1-add_simplex-none.json"),
+ ("C05", "F6", "replays/C05-F6-format5-kwargs.json"), ("C05", "F6", "replays/C05-F6-format5-kwargs-dh.json"),
+ ("C05", "F6", "replays/C05-F6-format5-kwargs-sc.json"), ("C05", "F5a", "replays/C05-F5a-add_simplex-idx0.json"),
+ ("C05", "F1", "replays/C05-F1-none-accepted.json"),
 ]
 KNOWN = [
  # (property, id, bucket, what, replay)
